@@ -187,9 +187,8 @@ def run_history(g, payload, hist, rename, acc, fam):
         Monitor.current = None
 
 
-NAMESPACE_NAMES = ["synth_asign_block_0", "synth_asign_block_1", "loop_region_0", "synth_exit_latch_block_0", "synth_head_block_0",
-                   "synth_tail_block_0", "synth_return_block_0", "head_region_0", "branch_region_0", "tail_region_0",
-                   "synth_exit_block_0", "synth_fill_block_0", "synth_asign_block_2", "meta_region_0", "__scfg_control_var_0__"]
+from ..families import NAMESPACE_NAMES as _NS_ALL
+NAMESPACE_NAMES = [n for n in _NS_ALL if n not in ("synth_return_block_1", "synth_head_block_1", "loop_region_1")]
 
 
 def _work(args):
